@@ -9,6 +9,7 @@
 -/
 import RoProofs.Gate
 import RoModel.Ops.Aggregate
+import RoProofs.ObsShared
 namespace Ro.C01
 
 /-- (a) the delivered part obeys the grammar — every raw script -/
@@ -44,9 +45,23 @@ example : (runOp (takeM (α := Int) 1) .sync {} [.next {} 1, .next {} 2, .comple
 example : Grammar (runOp (takeM (α := Int) 1) .hot {} [.next {} 1, .next {} 2, .complete {}, .next {} 3]).out := by decide
 example : ¬ Grammar ([.complete {}, .next {} 3] : List (Notif Int)) := by decide
 
+/-! ### one observer attached through Subscribe to two sources (RoModel/ObsShared.lean; tie: kind=sharedobs) -/
+
+/-- whatever the two sources send, in whatever order: the shared observer receives values, then at most one terminal (of
+    whichever source ends first), then nothing -/
+theorem shared_observer_grammar (evs : List (Nat × Notif Int)) : Grammar (ObsShared.run evs).trace :=
+  ObsShared.shared_observer_grammar evs
+
+/-- … and every notification it does not receive is reported as dropped -/
+theorem shared_observer_partition (evs : List (Nat × Notif Int)) :
+    (ObsShared.run evs).trace.length + (ObsShared.run evs).dropped.length = evs.length :=
+  ObsShared.shared_observer_partition evs
+
 end Ro.C01
 
 #print axioms Ro.C01.kernel_grammar
+#print axioms Ro.C01.shared_observer_grammar
+#print axioms Ro.C01.shared_observer_partition
 #print axioms Ro.C01.kernel_partition
 #print axioms Ro.C01.kernel_idempotent
 #print axioms Ro.C01.operator_grammar
